@@ -4,7 +4,7 @@
    fixes/C20-retr-octets.patch and fixes/C20-snapshot-by-uid.patch), tied to the real
    POP3CommandHandler by the correspondence check of harness/props/c20.py.
    `step true` / `run true`: message numbers are resolved through the snapshot UID. *)
-From Asimap Require Import Base.Res Base.Bytes Gen.DotStuff Spec.Pop3Spec Model.Pop3M Proofs.Pop3P.
+From Asimap Require Import Base.Res Base.Bytes Gen.DotStuff Spec.Pop3Spec Model.Pop3M Proofs.Pop3P Proofs.Pop3Bridge.
 Open Scope Z_scope.
 Open Scope list_scope.
 
@@ -19,6 +19,23 @@ Theorem C20_stuffing : forall d,
     receive (end_multiline p) = Some (if negb (is_nil d) && negb (ends_crlf d) then d ++ crlf else d).
 Proof. exact stuffing. Qed.
 Print Assumptions C20_stuffing.
+
+(* the terminator of the model IS pop3_client.end_multiline as regenerated from the source on every
+   run (Gen/DotStuff.v, second definition): it never raises and equals the model's *)
+Theorem C20_terminator_is_the_generated_one : forall d,
+  Asimap.Gen.DotStuff.end_multiline d = Ok (Pop3M.end_multiline d).
+Proof. exact end_multiline_is_generated. Qed.
+Print Assumptions C20_terminator_is_the_generated_one.
+
+(* hence, entirely on generated code: what RETR/TOP put on the wire for data d is read back as d *)
+Theorem C20_generated_wire_roundtrip : forall d,
+  exists p w, dot_stuff d = Ok p /\ Asimap.Gen.DotStuff.end_multiline p = Ok w /\
+    receive w = Some (if negb (is_nil d) && negb (ends_crlf d) then d ++ crlf else d).
+Proof.
+  intros d. destruct (stuffing d) as [p [Hp [_ [_ Hr]]]].
+  exists p, (Pop3M.end_multiline p). split; [exact Hp|]. split; [apply end_multiline_is_generated|exact Hr].
+Qed.
+Print Assumptions C20_generated_wire_roundtrip.
 
 (* From any well-formed INBOX, after a session is opened, under ANY sequence of POP3 commands
    and IMAP-side events (appends, expunges of arbitrary UIDs, packs, a QUIT or a drop in the
